@@ -236,10 +236,56 @@ func genExifInputs(c *Ctx, n int) []epInput {
 	return out
 }
 
+// genExifTruncated: generated TIFF files cut off inside their value area (the last values end early), bare and inside PNG:
+// the unbuffered reader then sees short reads while a value is being fetched
+func genExifTruncated(c *Ctx, n int) []epInput {
+	var out []epInput
+	for i := 0; i < n; i++ {
+		r := genRecord(c)
+		lo := layoutOpt{shuffleEntries: c.Rng.Intn(2) == 0, pad: []int{0, 1}[c.Rng.Intn(2)], entryOrderVals: c.Rng.Intn(2) == 0}
+		t := buildTIFF(c, r, c.Rng.Intn(2) == 0, lo)
+		for _, k := range []int{1, 3, 1 + c.Rng.Intn(12), 8 + c.Rng.Intn(60), 40 + c.Rng.Intn(200)} {
+			if k >= len(t)-16 {
+				continue
+			}
+			tt := append([]byte{}, t[:len(t)-k]...)
+			out = append(out, epInput{fmt.Sprintf("gen/trunc%d-%d.tif", i, k), tt, "gen"})
+			if c.Rng.Intn(2) == 0 {
+				out = append(out, epInput{fmt.Sprintf("gen/trunc%d-%d.png", i, k), inPNG(c, tt, true), "gen"})
+			}
+		}
+	}
+	return out
+}
+
+// genXmpInputs: generated XMP packets, values around and beyond the reader's look-ahead windows, in element and attribute form
+func genXmpInputs(c *Ctx, n int) []epInput {
+	var out []epInput
+	for i := 0; i < n; i++ {
+		props := genXProps(c)
+		// make one value long: 900..1536 bytes
+		if len(props) > 0 {
+			k := c.Rng.Intn(len(props))
+			if props[k].array == "" {
+				props[k].val = xmpText(c, []int{900, 1020, 1030, 1100, 1300, 1450, 1500, 1530, 1536}[c.Rng.Intn(9)])
+			}
+		}
+		st := xmpStyle{quote: []byte{'"', '\''}[c.Rng.Intn(2)], pad: func() string { return []string{"", " ", "\n "}[c.Rng.Intn(3)] }}
+		elem := c.Rng.Intn(3) != 0
+		for range props {
+			st.form = append(st.form, !elem)
+		}
+		out = append(out, epInput{fmt.Sprintf("gen/x%d.xmp", i), serialiseXMP(c, props, st), "gen"})
+	}
+	return out
+}
+
 // C08 — results do not depend on how the reader chunks its data
 func runC08(c *Ctx) error {
 	c.Res.Rule = "every decode entry point x (sample files, crafted files, generated well-formed Exif files in TIFF/JPEG/PNG/HEIF, mutations) under: plain in-memory reader (reference); one byte at a time; two alternating small chunk sizes; random positive chunk schedule; last bytes delivered together with io.EOF; all of them combined. The canonical result (value and error class) must equal the reference. Non-trivial: reference result carries at least one field or a specific error; distinct by (entry, bytes, schedule)."
 	ins := append(corpus(c, c.N(6, 200), c.N(60, 2000)), genExifInputs(c, c.N(60, 2500))...)
+	ins = append(ins, genExifTruncated(c, c.N(8, 200))...)
+	ins = append(ins, genXmpInputs(c, c.N(25, 600))...)
 	scheds := func() []string {
 		return []string{"sched=1", fmt.Sprintf("sched=%d,%d", 1+c.Rng.Intn(7), 1+c.Rng.Intn(3)), fmt.Sprintf("sched=%d,%d,%d deof", 1+c.Rng.Intn(600), 1+c.Rng.Intn(40), 1+c.Rng.Intn(5000)), "deof", "sched=1 deof"}
 	}
@@ -301,6 +347,7 @@ func runC08(c *Ctx) error {
 func runC04(c *Ctx) error {
 	c.Res.Rule = "every decode entry point x (samples, crafted, generated Exif files, mutations): the result on pristine pooled state (all pooled buffers zeroed through the verif hook) must equal the result after the pools were poisoned with adversarial content (large offsets in every tag slot, non-zero scratch bytes, two different patterns) and after the natural history of the worker (thousands of earlier decodes); hashes: C19. Non-trivial: every case; distinct by (entry, bytes, history)."
 	ins := append(corpus(c, c.N(6, 200), c.N(60, 2000)), genExifInputs(c, c.N(60, 2500))...)
+	ins = append(ins, genExifTruncated(c, c.N(20, 500))...)
 	var cases []epCase
 	type grp struct{ idx []int }
 	var groups []grp
